@@ -31,11 +31,12 @@ def technique(engine):
 def main():
     props = [json.loads(l) for l in open(os.path.join(VERIF, "properties.jsonl"))]
     checks, na = [], []
+    ready = set(open(os.path.join(VERIF, "checks", "READY")).read().split())
     for p in props:
         pid = p["id"]
         modname = harness.CHECKS[pid]
         path = os.path.join(VERIF, modname.replace(".", "/") + ".py")
-        if not os.path.exists(path):
+        if not os.path.exists(path) or pid not in ready:
             na.append({"property_id": pid, "reason": "check not implemented yet in this revision (planned, see DESIGN.md section 5); not a claim that the technique cannot apply"})
             continue
         mod = importlib.import_module(modname)
